@@ -708,7 +708,8 @@ std::string mathCanon(const std::string &math)
     std::string doc = "<vp_wrap>" + body + "</vp_wrap>";
     xmlSetGenericErrorFunc(nullptr, silentError);
     xmlSetStructuredErrorFunc(nullptr, nullptr);
-    xmlDocPtr d = xmlReadMemory(doc.c_str(), static_cast<int>(doc.size()), "m.xml", nullptr, XML_PARSE_NOERROR | XML_PARSE_NOWARNING | XML_PARSE_NONET);
+    // XML_PARSE_HUGE: math that the validator accepts (256 levels on its own) must not be unparsable here because of the wrapper
+    xmlDocPtr d = xmlReadMemory(doc.c_str(), static_cast<int>(doc.size()), "m.xml", nullptr, XML_PARSE_NOERROR | XML_PARSE_NOWARNING | XML_PARSE_NONET | XML_PARSE_HUGE);
     if (d == nullptr) {
         return "UNPARSABLE:" + math;
     }
